@@ -148,6 +148,7 @@ def run_property(prop, tier='quick', replay=None, quiet=False):
     known_hits = []
     if ctx is not None:
         for key, f in ctx.findings.items():
+            key = key.replace(' ', '_')
             if key in known_p:
                 known_hits.append((key, f))
             else:
